@@ -543,6 +543,31 @@ func c16Close(e *Env, acq, rel *ssa.Function) {
 	}
 	if acq != nil {
 		cs := closes(acq)
+		// the admission decided under the lock, the close done after it: the single close in acquireEndpoint itself is guarded by
+		// a local flag; the admission points are then the stores of `true` into that flag inside the locked callbacks
+		if len(cs) == 1 && cs[0].Parent() == acq {
+			var flag *ssa.Alloc
+			core.GuardedBy(cs[0], func(cond ssa.Value) core.CondMatch {
+				if ld, isLd := cond.(*ssa.UnOp); isLd && ld.Op == token.MUL {
+					if a := core.CellOf(ld.X); a != nil {
+						flag = a
+						return core.CondMatch{Match: true, Branch: true}
+					}
+				}
+				return core.CondMatch{}
+			})
+			if flag != nil {
+				var sets []ssa.Instruction
+				for _, st := range core.StoresToCell(flag) {
+					if b, isB := core.ConstBool(st.Val); isB && b && st.Parent() != acq {
+						sets = append(sets, st)
+					}
+				}
+				if len(sets) > 0 {
+					cs = sets
+				}
+			}
+		}
 		// exactly two: on the counter<limit edge in onLoad, and in the create function
 		e.R.Check(len(cs) == 2, rule, lpr+".acquireEndpoint:grant-sites", e.fpos(acq), "the waiter's channel is closed at exactly two places: immediate admission of an existing entry and creation of the entry", fmt.Sprintf("%d close() sites in acquireEndpoint (expected 2): a waiter may be admitted twice or never", len(cs)))
 		okG := 0
